@@ -408,7 +408,8 @@ def replay_ctc_listing(trees):
 def batch_native_grid(max_n):
     """Native validation sweep: all shapes x all cardinalities through the same oracle."""
     res = {'instances': 0, 'nontrivial': 0, 'violations': [], 'native_runs': 0}
-    for shape in R.shapes(max_n):
+    from .common import SIBLING_GROUPS
+    for shape in R.shapes(max_n) + (SIBLING_GROUPS if max_n < 6 else []):
         for cards in R.all_cards(shape, allow_zero_max=True):
             res['instances'] += 1
             res['native_runs'] += 1
@@ -451,7 +452,8 @@ def conditions(tier, seed):
         sample={'relation': 'Relation(P, kids, mn, mx)', 'bound': 'none on mn, mx, len(kids)'},
         validate=[(1, 1, [0]), (0, 1, [0, 1]), (1, 3, [0, 1, 2]), (2, 3, [0, 1, 2, 3]), (0, 0, [0, 1])]))
     rnd = random.Random(seed)
-    for si, shape in enumerate(R.shapes(N)):
+    from .common import indexed_shapes
+    for si, shape in indexed_shapes(N):
         rels = R.relations_of(shape)
         n = R.n_features(shape)
         if not rels:
